@@ -77,6 +77,7 @@ FLOAT_TEXTS = [".inf", "-.inf", "+.inf", ".Inf", ".INF", "-.Inf", "-.INF", "+.In
                "Infinity", "-Infinity", "nan", "NaN", "NAN", "+nan", "-nan", "infx", "nanx", "", ".", "+", "-", "e5", ".e5", "1e", "1e+", "1e-", "1.2.3", "1..2", "1e5x", "x", "1x",
                "_1.5", "1_.5", "1._5", "1_e5", "1e_1", "1__0.5", "1.5_", "0x", "0x1", "1,5", " 1.5", "1.5 ", "1e5.5", "--1", "+-1", "1e++1", "0b1", "0o7.5", "١.٥",
                "1.5", ".5", "5.", "1e3", "1_0.5", "-.5e-3", "1e1_0", "1E5", "+1.0", "-0.0", "007.5", "1e400", "-1e999", "1e-999", "123456789012345678901234567890"]
+FLOAT_NONNUM = [t for t in FLOAT_TEXTS[:FLOAT_TEXTS.index("1.5")] if not t.lower().lstrip("+-").startswith("0x")]
 OTHER_TAGS = ["!!str", "!!binary", "!!timestamp", "!!merge", "!!", "!!Int", "!!int ", "!!seq", "!!map", "!!set", "!!omap"]
 
 
@@ -110,7 +111,7 @@ def gen_node(rng, depth=0, maxdepth=4):
         if q < 0.7:
             return {"k": "s", "t": "!!int", "v": gen_int_text(rng).encode()}
         if q < 0.74:
-            return {"k": "s", "t": "!!float", "v": rng.choice(FLOAT_TEXTS[:62]).encode()}
+            return {"k": "s", "t": "!!float", "v": rng.choice(FLOAT_NONNUM).encode()}
         if q < 0.82:
             return {"k": "s", "t": "!!bool", "v": rng.choice(BOOL_TEXTS).encode()}
         if q < 0.9:
@@ -709,7 +710,8 @@ def run(chk):
                     out_of_range = ib0 == b"ERR:float" and math.isinf(float(txt.replace("_", "")))
                 except ValueError:
                     out_of_range = False
-                if numeric_ok or out_of_range:
+                hexfloat = txt.lower().lstrip("+-").startswith("0x")      # hexadecimal float syntax is not modelled
+                if numeric_ok or out_of_range or hexfloat:
                     continue
             disagreements.append(("encoder", node_coq(nodes[i0])[:400], cfg, ib0[:200], mo[:200] if isinstance(mo, bytes) else mo))
     chk.extra["encoder_cases_compared"] = n_enc_cmp
